@@ -401,6 +401,22 @@ def io_write(e, c, a):
     return ok(UNIT) if m == "write_all" else ok(usize(len(items)))
 
 
+@model(r"^(std::io::)?copy::<")
+def io_copy(e, c, a):
+    """std::io::copy(reader, writer): everything the reader still holds is written with write_all; Ok(bytes copied) or the write error"""
+    src = _source(e, a[0]); w = _sink(e, a[1])
+    data = src.read(e, 1 << 40)
+    if isinstance(w, VecObj):
+        w.e.extend(data); good = True
+    elif isinstance(w, (FileObj, BufWriterObj)):
+        good = w.write_all(e, data)
+    elif hasattr(w, "write_model"):
+        good = w.write_model(e, data)
+    else:
+        raise Unsupported(f"io::copy into {w!r}")
+    return ok(usize(len(data))) if good else err(io_err("ENOSPC"))
+
+
 def _source(e, r):
     v = r
     for _ in range(6):
